@@ -514,7 +514,7 @@ def job_normp(res, n):
             else:
                 xv = [(-1.0) ** (i + 1) * (1.0 + 0.5 * i) for i in range(w * n)]
                 confirm(res, PID, HARNESS, 'h_normp', [('i32', cplx), ('i32', p), ('pf64', xv), ('i32', n)], 'f64', 'normp', ORACLES, f'norm:p={p}:{"cmplx" if cplx else "real"}', f'{label}: not the p-norm of the element magnitudes')
-            for xv in ([-1.0, 2.0, -3.0, 0.5, -0.25, 4.0][:w * n], [0.0] * (w * n), [-2.0] * (w * n)):
+            for xv in ([(-1.0) ** (i + 1) * (1.0 + 0.75 * (i % 5)) for i in range(w * n)], [0.0] * (w * n), [-2.0] * (w * n)):
                 mm = Machine(mod); rr = mm.call('@h_normp', [cplx, p, mm.alloc_doubles(xv, 'x'), n]); res.absorb(mm)
                 bad, why = o_normp([('i32', cplx), ('i32', p), ('pf64', xv), ('i32', n)], {'status': 'ok', 'ret': rr}, None)
                 sol = z3.Solver(); sol.add(z3.BoolVal(bool(bad)))
